@@ -13,7 +13,7 @@ CHECKS = {
         category="model_checking",
         technique="TLC trace validation (Trace_Api: sent = Wire!EncodeLayout(Messages!Req[op], Api!Fields(op,args))) of API calls recorded at the transport boundary; TLC check of table well-formedness and codec round trip (MC_Wire)",
         text="The protocol (field codec, 65 message layouts, per-operation request construction) is an executable TLA+ definition; TLC checks its well-formedness and round trip, "
-             "and then judges every recorded call of the real library (sequences on one client: all ordered pairs of operations, every 1-byte argument over all 256 values, all HH:mm values, random and boundary tuples, serial bit-walks, dense date histories across a leap-year end, client configurations with every protocol string) "
+             "and then judges every recorded call of the real library (sequences on one client: all ordered pairs of operations, every 1-byte argument over all 256 values, all HH:mm values, random and boundary tuples, serial bit-walks, dense date histories across a leap-year end, client configurations with every protocol string; ANSWERED histories: every operation answered as succeeded, the identical call again, another operation, again, on a second client, unanswered, and a setter fed with the value a getter has just reported) "
              "by comparing all 64 bytes handed to the transport with the specification's encoding; on the real driver (loopback farm) the request is compared again as it arrived at the controller's socket (WireExact) and counted (ExactlyOneRequest, also with strays ahead of the reply). Exhaustive per field, combinatorial/random across fields; not a proof over all argument tuples.",
         note="Trusted: spec/Messages.tla as the protocol (frozen transcription of the pinned commit, cross-checked against the repository's golden vectors); TLC; the harness projection of arguments (field copies). TZ=UTC.",
         design="4/C01",
@@ -30,7 +30,7 @@ CHECKS = {
         category="model_checking",
         technique=TR,
         text="Invariants AcceptOnlyValid, BcastKeepsWaiting, FailOnlyOnBad, SetAddrNeverReads hold on the complete state space of three bounded configurations (2-3 calls, all datagram classes, strays, peer faults). "
-             "Behaviours of the same specification (controller answers of 1-2 datagrams from 8 classes, strays injected into the call's source port, all three paths) are replayed against the unmodified driver on loopback and every recorded scenario must be a behaviour of the specification: accepted / skipped / refused exactly as the model's Recv says; one hand-made behaviour per datagram class x {ordinary, status} call x path and per wrong length (19 lengths, 0..4096, and the genuine TCP reply split in two segments) and path; floods of up to 140 ignored datagrams ahead of the genuine reply; peer faults incl. a TCP peer that ends the stream without a byte (closed); on the real driver every reply-bearing operation over each path with the result kept across 1-4 further exchanges, and a reply with one out-of-domain field right after a well-formed one, judged against its own datagram (OnlyOwnDatagram).",
+             "Behaviours of the same specification (controller answers of 1-2 datagrams from 8 classes, strays injected into the call's source port, all three paths) are replayed against the unmodified driver on loopback and every recorded scenario must be a behaviour of the specification: accepted / skipped / refused exactly as the model's Recv says; one hand-made behaviour per datagram class x {ordinary, status} call x path and per wrong length (19 lengths, 0..4096, and the genuine TCP reply split in two segments) and path; floods of up to 140 ignored datagrams ahead of the genuine reply; peer faults incl. a TCP peer that ends the stream without a byte (closed); on the real driver every reply-bearing operation over each path with the result kept across 1-4 further exchanges, and a reply with one out-of-domain field right after a well-formed one, judged against its own datagram (OnlyOwnDatagram); and for every reply-bearing operation x path a fatal datagram answering the first request while a well-formed reply would answer any repeated one: the call fails after ONE request (Trace_Api!CheckFatalFirst).",
         note="Trusted: TLC; the farm's concretisation of datagram classes; timing on a 40-50 ms tick with a re-run rule (a rejected scenario is reported only if it is rejected again in at least two isolated re-runs at 3x / 5x tick whose own clockwork was undisturbed, and in more of them than it is accepted in). Operation coverage on real sockets is representative (GetCardByIndex, GetStatus incl. 0x19, SetAddress); per-operation decoding is C02's.",
         design="4/C03",
     ),
@@ -70,7 +70,7 @@ CHECKS = {
         category="model_checking",
         technique=TR + "; happens-before model of Broadcast() (spec/Discovery.tla, vector clocks) with NoRace invariant; Go race detector as observer of memory races on the same scripts + discovery + listener shutdown",
         text="NoCrossedReplyStrict, PortExclusive, TimelyAnswerAccepted hold over all interleavings of 3 calls to one controller on a shared fixed port (delays < T); XF_NoGuard, XF_GuardPerClient (the lock owned by a client instead of the process), XF_DeadlineBeforeLock and XF_DiscoveryUnsync each yield the modelled defect's counterexample. "
-             "Simulated behaviours with 3-4 concurrent calls (same controller, mixed paths, fixed and ephemeral port) are replayed on real sockets with request tags echoed in replies so that a crossed reply or a refused timely answer is a rejected trace (incl. calls that queue for the fixed port and then use TCP, and two connected-UDP calls to one controller); a gate around the real driver (verif hook) forces the schedule Transport!Finish(a) .. [call b completes 1-4 times] .. Transport!Return(a) over all nine path pairs, same / other client, and each result must interpret its own reply (Trace_Api!CheckGate); the same scripts run under -race, preceded by a cold-start burst (one goroutine per operation released at once on a fresh process), bursts of events into the listener, and calls whose slice arguments are windows of one table; a race is attributed to the first frame of each access that is not runtime / standard library.",
+             "Simulated behaviours with 3-4 concurrent calls (same controller, mixed paths, fixed and ephemeral port) are replayed on real sockets with request tags echoed in replies so that a crossed reply or a refused timely answer is a rejected trace (incl. calls that queue for the fixed port and then use TCP, and two connected-UDP calls to one controller); a gate around the real driver (verif hook) forces the schedule Transport!Finish(a) .. [call b completes 1-4 times] .. Transport!Return(a) over all nine path pairs, same / other client, and each result must interpret its own reply (Trace_Api!CheckGate); the same scripts run under -race, preceded by a cold-start burst (one goroutine per operation released at once on a fresh process), bursts of events into the listener, and calls whose slice arguments are windows of one table; a race is attributed to the first frame of each access that is not runtime / standard library. Optional strengthening, never a verdict about the code: spec/proofs/TransportProofs.tla (TLAPS, 179 obligations) proves the inductive invariants MutexInv, TimeInv and SendsInv of Transport.tla for ANY number of calls, any timeout and any reply plan (one guard holder, at most one socket on the fixed port, nothing held after Finish, the bind never fails; deadline = asked + T, never passed while waiting, no time-out before it; at most one request per call whatever the design switches).",
         note="Whether a memory race happened is observed by the Go race detector, not by the specification (which contributes the synchronisation design and arbitrates the trace). Timing as C03.",
         design="4/C08",
     ),
@@ -78,7 +78,7 @@ CHECKS = {
         category="model_checking",
         technique=TR + "; liveness (Termination) under weak fairness; process-level fd / goroutine counts as logged state",
         text="BoundedReturn, NoEarlyGiveUp, DeadlineFromAsk, Released are invariants of the model; Termination holds under weak fairness; XF_RearmPerRead / XF_NoCloseOnError / XF_DeadlineBeforeLock are refuted. "
-             "Replayed behaviours cover silence, late replies, refused and reset TCP, ICMP-refused UDP, accept-and-stall, a TCP peer that never answers the SYN (blackhole), a TCP handshake that completes only on the kernel's SYN retransmission and then stalls (model: Send = dial, Connect; one absolute deadline; XF_RearmAfterConnect refuted), and floods of irrelevant datagrams until the deadline (alone and with the genuine reply at T-1); time-outs must fall in tick T after being asked, timely replies must be accepted, and each child process must hold no more sockets or goroutines afterwards; discovery (Discovery.tla: WindowAbsolute, ReaderQuits under fairness, XF_DiscoveryRearm / XF_DiscoveryHandOff refuted) is exercised under a datagram-per-millisecond flood through the deadline with goroutine / socket accounting (Trace_Api!CheckQuiesce); further passes: Listen on a busy port and on port 0 (descriptors counted before any collection), overlapped discoveries on an ephemeral port, discovery after a failed bind, clients with timeout 0 / negative, a 1.3 s discovery window (reply at 0.88 T listed, silence is an empty list).",
+             "Replayed behaviours cover silence, late replies, refused and reset TCP, ICMP-refused UDP, accept-and-stall, a TCP peer that never answers the SYN (blackhole), a TCP handshake that completes only on the kernel's SYN retransmission and then stalls (model: Send = dial, Connect; one absolute deadline; XF_RearmAfterConnect refuted), and floods of irrelevant datagrams until the deadline (alone and with the genuine reply at T-1); time-outs must fall in tick T after being asked, timely replies must be accepted, and each child process must hold no more sockets or goroutines afterwards; discovery (Discovery.tla: WindowAbsolute, ReaderQuits under fairness, XF_DiscoveryRearm / XF_DiscoveryHandOff refuted) is exercised under a datagram-per-millisecond flood through the deadline with goroutine / socket accounting (Trace_Api!CheckQuiesce); further passes: Listen on a busy port and on port 0 (descriptors counted before any collection), overlapped discoveries on an ephemeral port, discovery after a failed bind, clients with timeout 0 / negative, a 1.3 s discovery window (reply at 0.88 T listed, silence is an empty list), and every reply-bearing operation against controllers that say nothing (silent UDP socket, TCP peer that never answers, silent broadcast address; T = 90 ms): each call fails after T, not 2 T, and leaves nothing behind.",
         note="Trusted: /proc/self/fd and runtime.NumGoroutine; tick timing with half a tick of slack on time-outs; re-run rule.",
         design="4/C09",
     ),
@@ -103,42 +103,42 @@ CHECKS = {
         technique="TLC model check of the BCD laws (MC_Bcd) + TLC trace validation (Trace_C12) of recorded bcd.Encode/Decode calls; TLAPS proofs of the per-byte nibble lemmas (spec/proofs/BcdProofs.tla, 33 obligations)",
         text="The four BCD laws are model-checked on the specification operators over all strings <=4/5 over a 12-symbol alphabet and all byte strings <=2/3; "
              "every recorded call of the real bcd.Encode/Decode on those same inputs (thorough: all 2^24 three-byte inputs, summarised) is then checked by TLC to equal the specification operator's value, "
-             "including both round trips. Exhaustive within the stated bounds, position independence sampled with random long inputs; multi-byte digit runes; the functions called from eight goroutines at once; the earliest inputs once more thousands of values later; results appended to by the caller; the nil slice.",
+             "including both round trips. Exhaustive within the stated bounds, position independence sampled with random long inputs; multi-byte digit runes; the functions called from eight goroutines at once; the earliest inputs once more thousands of values later; results appended to by the caller; the nil slice. Every encoded result is also written into by the caller and the same text encoded again: the later result is judged like the first.",
         note="Trusted: TLC's evaluation of spec/Bcd.tla; the harness logs inputs/outputs as byte arrays without interpretation; the dec3 summary (accept set + digit echo flag) is computed by the harness.",
         design="4/C12",
     ),
     "C13": dict(
         category="model_checking",
         technique=PURE + " (CivilValue / CivilWire) in one child process per time zone; midnight-gap days found per zone from the tz database by the harness",
-        text="The specification owns the calendar and the wire form: every date / date-time that exists in the process zone must be reported as its civil value and encode to its own digits. All days whose local midnight is skipped 1900-2100 (found per zone), their neighbours, skipped days (exempt), the days of ordinary offset changes, boundaries and random days through ToDate, ParseDate, wire and JSON decode, String, SystemDate, date-time decode (five clock readings per day) the date+time recombination of GetStatus and of the event listener, date-times held in a foreign (fixed-offset) Location, a dense window across a year end in one process; 25 zones quick, every zone thorough.",
+        text="The specification owns the calendar and the wire form: every date / date-time that exists in the process zone must be reported as its civil value and encode to its own digits. All days whose local midnight is skipped 1900-2100 (found per zone), their neighbours, skipped days (exempt), the days of ordinary offset changes, boundaries and random days through ToDate, ParseDate, wire and JSON decode, String, SystemDate, date-time decode (five clock readings per day) the date+time recombination of GetStatus and of the event listener, date-times held in a foreign (fixed-offset) Location, a dense window across a year end in one process; 25 zones quick, every zone thorough. Dates inside time-profile and task JSON documents are also decoded through a variable that has been used for another document before (the date reported is the one in THIS document).",
         note="Trusted: existence of a civil time in a zone is computed by Go's time package / system tz database (TLA+ has no tz database); TLC.",
         design="4/C13",
     ),
     "C14": dict(
         category="model_checking",
         technique=PURE + " (JsonRoundTrip, JsonRoundTripAsMember, TextValue, TextReject; spec/Text.tla character-level grammars, spec/Addr.tla for address JSON)",
-        text="For each public type with a JSON form, generated in-domain values are encoded, decoded into a fresh zero value (nil maps) and as a struct member, and compared semantically by the specification; per type a character-level grammar says which texts denote which value and which must be rejected (date texts also as members of a card document; address texts incl. overflow / non-decimal ports and quad-less texts through JSON). Dates, date-times (random instants 1850-2100 and instants around the zone's own offset changes - the hour that occurs twice), cards and the text form of dates in a child process per zone, a third of the dates on the zone's offset-change days.",
+        text="For each public type with a JSON form, generated in-domain values are encoded, decoded into a fresh zero value (nil maps) and as a struct member, and compared semantically by the specification; per type a character-level grammar says which texts denote which value and which must be rejected (date texts also as members of a card document; address texts incl. overflow / non-decimal ports and quad-less texts through JSON). Dates, date-times (random instants 1850-2100 and instants around the zone's own offset changes - the hour that occurs twice), cards and the text form of dates in a child process per zone, a third of the dates on the zone's offset-change days. Profiles and tasks with open-ended validity (the zero date at either end or both) are among the generated values.",
         note="Trusted: TLC; semantic projections in the harness (door / weekday / segment look-ups); documented don't-cares.",
         design="4/C14",
     ),
     "C15": dict(
         category="model_checking",
         technique=PURE + " (AcceptExact, Reject, FormatRoundTrip, RejectNoQuad; spec/Addr.tla) + TLC check of the grammar's consistency (MC_Addr)",
-        text="Addr!MustAccept / MustReject / don't-care partition texts per role; every string over {1,0,2,5,.,:} up to length 7/9, all ports (and decimal numbers beyond 65535: MustReject), single-character mutations of valid addresses and format/parse round trips (boundary addresses such as 0.0.0.0 and 255.255.255.255 x boundary ports first, then random) are judged by TLC for all four roles through Parse, MustParse, Set and the XAddrFrom constructors; a port text with a non-digit is refused (NonDecimalPort), an accepted zero-padded port is its decimal value (AcceptedMeansDecimal), the same text parsed twice gets the same answer.",
+        text="Addr!MustAccept / MustReject / don't-care partition texts per role; every string over {1,0,2,5,.,:} up to length 7/9, all ports (and decimal numbers beyond 65535: MustReject), single-character mutations of valid addresses and format/parse round trips (boundary addresses such as 0.0.0.0 and 255.255.255.255 x boundary ports first, then random) are judged by TLC for all four roles through Parse, MustParse, Set and the XAddrFrom constructors; a port text with a non-digit is refused (NonDecimalPort), an accepted zero-padded port is its decimal value (AcceptedMeansDecimal), the same text parsed twice gets the same answer. Set() is also called on objects that already hold an address (same address with another port, another address with the same port, both different), judged like Parse.",
         note="Trusted: TLC; texts as code points.",
         design="4/C15",
     ),
     "C16": dict(
         category="model_checking",
         technique=PURE + " (rows of Before/After/Equals verdicts recomputed from the lexicographic operators) + TLC check of trichotomy / transitivity / irreflexivity and agreement with the day number on a bounded grid (MC_Order); TLAPS proofs of the order laws and the segment rule over unbounded integers (spec/proofs/OrderProofs.tla, 8 obligations)",
-        text="All 1441^2 HH:mm pairs (thorough; every 5th row quick), every day of four years incl. leap and century years against its calendar neighbours, the year ends of a 400-year cycle (thorough: all years), month ends, boundaries incl. the first day of the range (also as the zero value), values built with ToDate / time.Date / HHmmFromTime, random grids, date-time vs instant around second boundaries and around the offset changes of the operands' own locations; the segment rule (Trace_Api!CheckSegmentRule) over all ordered pairs of a boundary-rich HH:mm set through SetTimeProfile.",
+        text="All 1441^2 HH:mm pairs (thorough; every 5th row quick), every day of four years incl. leap and century years against its calendar neighbours, the year ends of a 400-year cycle (thorough: all years), month ends, boundaries incl. the first day of the range (also as the zero value), values built with ToDate / time.Date / HHmmFromTime, random grids, date-time vs instant around second boundaries and around the offset changes of the operands' own locations; the segment rule (Trace_Api!CheckSegmentRule) over all ordered pairs of a boundary-rich HH:mm set through SetTimeProfile. The segment rule is also judged on profiles that come out of json.Unmarshal, two decoded before either is used (the pair and its reverse): each is accepted or refused for what its own document says.",
         note="Trusted: TLC; whole-second timestamps logged as two 20-bit halves.",
         design="4/C16",
     ),
     "C17": dict(
         category="model_checking",
         technique="TLC model check of spec/Insulation.tla (RoutesBySnapshot, HeldStable; three XF design switches refuted); stateful TLC trace validation (Trace_Insulation: snapshot taken at `construct`, every later call must route by Api!Route(snapshot), every re-check must show the held rendering)",
-        text="Every history of <=3/<=4 actions over {mutate caller data, mutate the DeviceList map, call, scribble transport buffers, mutate a result, re-check, clone} (+ random histories of length 20) replayed on the scripted transport, which hands out slices of one reusable buffer; argument values (cards, profiles, tasks' weekday maps, keypad maps, passcode windows with their tail) and the caller's device list (entries with id 0, spare capacity) are re-projected after each call / after construction; on the real driver every reply-bearing operation and discovery over each path with the result kept across 1-4 further exchanges (KeptResultUnaffected).",
+        text="Every history of <=3/<=4 actions over {mutate caller data, mutate the DeviceList map, call, scribble transport buffers, mutate a result, re-check, clone} (+ random histories of length 20) replayed on the scripted transport, which hands out slices of one reusable buffer; argument values (cards, profiles, tasks' weekday maps, keypad maps, passcode windows with their tail) and the caller's device list (entries with id 0, spare capacity) are re-projected after each call / after construction; on the real driver every reply-bearing operation and discovery over each path with the result kept across 1-4 further exchanges (KeptResultUnaffected). Per operation: the call for the configured controller answered \"succeeded\", further calls for it (routed by the snapshot) and the configuration the client reports afterwards.",
         note="Trusted: TLC; projections of held values; argument immutability by re-projection of the values the caller still holds.",
         design="4/C17",
     ),
